@@ -21,9 +21,9 @@ LEVEL = "model_checking"
 ENCODED = ["twisted.internet.defer:Deferred.cancel", "twisted.internet.defer:Deferred._startRunCallbacks",
            "twisted.internet.defer:Deferred.callback", "twisted.internet.defer:Deferred.errback",
            "twisted.internet.defer:Deferred._runCallbacks"]
-BOUNDS = {"quick": {"n": 5}, "thorough": {"n": 7}}
+BOUNDS = {"quick": {"n": 5, "n0": 5}, "thorough": {"n": 6, "n0": 7}}
 B = {}
-BOUNDS_TEXT = ("every history of <= n ops over {callback, errback, cancel, add callback returning the unfired-or-"
+BOUNDS_TEXT = ("every history of <= n ops (<= n0 ops for the outer Deferred without canceller, thorough tier) over {callback, errback, cancel, add callback returning the unfired-or-"
                "fired inner Deferred (+ probe), fire inner}, outer canceller kind in {none, no-op, fires callback, "
                "fires errback, raises}, inner canceller kind likewise, fired values v+i for every int v; model "
                "and real state are compared after every op, so shorter histories are covered as prefixes")
@@ -303,14 +303,10 @@ class _World:
 T8 = Tuple[int, int, int, int, int, int, int, int]
 
 
-def history(ck: int, ik: int, v: int, ops: T8) -> bool:
-    """
-    pre: 0 <= ck <= 4
-    post: _
-    """
-    w = _World(v, _c(ck, 0, 5), ik)
+def _hist(n, ck, ik, v, ops):
+    w = _World(v, ck, ik)
     try:
-        for i in range(B['n']):
+        for i in range(n):
             op = _c(ops[i], 0, 5)
             if not w.step(i, op):
                 return False
@@ -318,6 +314,23 @@ def history(ck: int, ik: int, v: int, ops: T8) -> bool:
         return w.same(True)
     finally:
         w.finish()
+
+
+def history(ck: int, ik: int, v: int, ops: T8) -> bool:
+    """
+    pre: 0 <= ck <= 4
+    post: _
+    """
+    return _hist(B['n'], _c(ck, 0, 5), ik, v, ops)
+
+
+def history_nocanc(ik: int, v: int, ops: T8) -> bool:
+    """
+    pre: True
+    post: _
+    """
+    # longer histories for the canceller-less outer Deferred (the 'swallow one late result' rule)
+    return _hist(B['n0'], 0, ik, v, ops)
 
 
 def _bucket(k, c):
@@ -328,15 +341,17 @@ def _bucket(k, c):
     return "ops[%d] == %d" % (k, c)
 
 
-def _shards(tier):
-    depth = 1 if tier == "quick" else 2
-    sh = [("ck == %d" % ck,) for ck in range(5)]
+def _split(sh, depth):
     for k in range(depth):
         sh = [x + (_bucket(k, c),) for x in sh for c in range(5)]
     return sh
 
 
-HARNESSES = [H(history, shards=_shards, timeout={"quick": 90, "thorough": 900})]
+HARNESSES = [
+    H(history, shards=lambda tier: _split([("ck == %d" % ck,) for ck in range(5)], 1 if tier == "quick" else 2),
+      timeout={"quick": 150, "thorough": 1200}),
+    H(history_nocanc, shards=lambda tier: _split([()], 3), tiers=("thorough",), timeout={"thorough": 1200}),
+]
 
 VECTORS = {"history": [
     # no canceller: cancel, then exactly one late callback is swallowed, the next one raises
